@@ -146,6 +146,9 @@ func (c *c08) contenderRound(cd c08Contender) error {
 		return err
 	}
 	r.Eval()
+	if !c.locksReleased("contenders:" + cd.A) {
+		return c.newContract()
+	}
 	if !ran {
 		return inconclusive("contender round %+v: A never reached its second round (%v)", cd, aErr)
 	}
